@@ -1,7 +1,12 @@
 CONSTANTS
-  Seeds = {0, 1, 2, 3, 4}
+  Seeds = {0, 1, 2}
   DTs = {"f", "i", "c"}
   ShAll = {"s", "3", "2x3", "3x3", "0"}
+  InLays = {"C", "F", "S", "R", "B"}
+  OutLays = {"C", "F", "S", "R", "O"}
+  KwKinds = {"handled", "override", "default"}
+  KwShapes = {"40", "3x40", "40x3", "2x3"}
+  KwDC = {"plain", "ties", "nan"}
 INIT Init
 NEXT Next
 INVARIANT Export
